@@ -52,6 +52,13 @@ THEOREMS = [
     'CpProofs.C19.digest_complete_full_false',
     'CpProofs.C19.md5_sess_recognised',
     'CpProofs.C19.ha2_no_valueError',
+    'CpProofs.C19.b64decode_encode',
+    'CpProofs.C19.basic_rfc7617_client',
+    'CpProofs.C19.parseHttpList_serialise',
+    'CpProofs.C19.parse_serialise',
+    'CpProofs.C19.parseAuth_serialised',
+    'CpProofs.C19.digest_rfc2617_client',
+    'CpProofs.C19.digest_rfc2617_client_wrong',
     'CpProofs.C19.tools_hooked',
     'CpProofs.C19.lifetime_default',
 ]
@@ -67,7 +74,10 @@ LEVEL_TEXT = ('Proved in Lean for every Authorization header string, configurati
               't:H(t:realm:key) for the server\'s realm and key with int(t)+600 > now, and response equals the RFC 2617 '
               'request-digest recomputed from the stored HA1, the request method and the header fields (qop absent/auth, '
               'MD5/MD5-sess); stale="true" iff genuine nonce + known user + correct digest + expired; 400 iff the Digest '
-              'header fails the parser/constructor; an exception escapes iff qop=auth-int (F21: TypeError). Partial: '
+              'header fails the parser/constructor; an exception escapes iff qop=auth-int (F21: TypeError); the transcribed '
+              'urllib list parsers give back the fields of any "name=\\"escaped value\\"" serialisation (arbitrary values), so '
+              'an RFC 2617 client is admitted from its header text, and the concrete base64 decoder inverts the RFC 4648 '
+              'encoder, so an RFC 7617 client is admitted iff store[u]=p. Partial: '
               'completeness and never-5xx exclude qop=auth-int (both full statements are proved false with the F21 '
               'witness); MD5 collision resistance, base64, codecs, NFC are parameters; RFC 2047 header decoding is outside.')
 LEVEL_NOTE = ('Trusted: Lean kernel (axioms propext, Classical.choice, Quot.sound only); lean/CpModel/Auth.lean as a '
